@@ -18,6 +18,7 @@ CONFIGS_QUICK = ["dir"]
 def run(ctx):
     BR.body_hint_tables(ctx, "C12.R1", "C12.R3")
     CH.size_hint_table(ctx, "C12.R2")
+    CH.shared_initial_state(ctx, "C12.R4.init")
     CH.end_stream_table(ctx, "C12.R3.reader")
     BR.exactlen_table(ctx, "C12.R4.exactlen")
     MP.stream_accounting(ctx, "C12.R4.multipart")
